@@ -409,11 +409,11 @@ def catchNth {S} (sk : Skills S) (recs : List CatchRec) (dl : Nat) (g : CatchGra
 /-- What the counting code reads of a mania hit object. -/
 structure ManiaObj where
   isCircle : Bool
-  /-- combo added by `ManiaObject::new` (one-shot path): `1 + (duration / 100) as u32` -/
+  /-- combo added by `ManiaObject::new`: `1 + (duration / 100) as u32` (1 for a circle). Since
+  /repo 1b784a7 the gradual calculator stores exactly this value per object (`objects_combo`,
+  read off `ObjectParams::max_combo` while the objects are created) instead of recomputing it
+  from the difficulty object's clock-rate-scaled times. -/
   incOne : Nat
-  /-- combo added by the gradual path, recomputed from the difficulty object's scaled times
-  (for the very first object: from the unscaled times) -/
-  incGrad : Nat
 deriving Repr, DecidableEq
 
 structure ManiaCounts where
@@ -437,9 +437,10 @@ structure ManiaGrad (S : Type) where
   nHoldNotes : Nat
   skills : S
 
+/-- `increment_combo(is_circle, combo, state)`: `curr_combo += combo; if !is_circle { n_hold_notes += 1 }` -/
 def ManiaGrad.incr {S} (g : ManiaGrad S) (o : ManiaObj) : ManiaGrad S :=
-  if o.isCircle then { g with currCombo := g.currCombo + 1 }
-  else { g with currCombo := g.currCombo + o.incGrad, nHoldNotes := g.nHoldNotes + 1 }
+  if o.isCircle then { g with currCombo := g.currCombo + o.incOne }
+  else { g with currCombo := g.currCombo + o.incOne, nHoldNotes := g.nHoldNotes + 1 }
 
 def maniaNew {S} (sk : Skills S) (objs : List ManiaObj) : ManiaGrad S :=
   let g : ManiaGrad S := { idx := 0, currCombo := 0, nHoldNotes := 0, skills := sk.init }
